@@ -60,6 +60,14 @@ Proof.
   exists sb. split; [|reflexivity]. destruct (block_at_num _ _ _ _ Esb) as [_ H]. exact (chain_incl _ _ _ H).
 Qed.
 
+Lemma justified_keeps_qs r e best : e_qs (fst (justified c r e best)) = e_qs e.
+Proof.
+  unfold justified, justified_gen. destruct (b_num best <? L - 1); [reflexivity|].
+  destruct (block_at r (b_id best) _) as [sb|]; [|reflexivity].
+  destruct (match e_jc e with Some (search, f, value) => _ | None => None end); [reflexivity|].
+  destruct (get_q (e_qs e) (b_id sb) =? 0); [reflexivity|]. destruct (find_cp c r (e_qs e) _ _ _); reflexivity.
+Qed.
+
 (* storing a fresh block (with or without a new quality record) does not disturb the entry *)
 Lemma quality_at_fresh b r qs qs' x n : known r (b_id b) = false -> In x r ->
   (forall id, id <> b_id b -> get_q qs' id = get_q qs id) ->
@@ -127,7 +135,8 @@ Inductive nev := NImport (b : blk) | NPropose (b : blk) | NRestart | NQuery.
 Definition nstep (nd : node) (ev : nev) : node :=
   match ev with
   | NImport b => fst (import true c nd b)
-  | NPropose b => if known (n_repo nd) (b_id b) then nd else fst (fst (propose true c nd b))
+  | NPropose b => if known (n_repo nd) (b_id b) || negb (known (n_repo nd) (b_parent b)) then nd   (* a node packs on a stored block *)
+                  else fst (fst (propose true c nd b))
   | NRestart => restart nd
   | NQuery => mkN (n_repo nd) (n_best nd) (fst (justified c (n_repo nd) (n_eng nd) (best_blk nd)))
   end.
@@ -141,7 +150,7 @@ Proof.
   - unfold import. destruct (known (n_repo nd) (b_id b)) eqn:Ek; [exact Hok|].
     destruct (known (n_repo nd) (b_parent b)); cbn [negb]; [|exact Hok].
     destruct (accepts _ _ _); cbn [negb]; [|exact Hok]. apply add_and_commit_jc; assumption.
-  - destruct (known (n_repo nd) (b_id b)) eqn:Ek; [exact Hok|]. unfold propose.
+  - destruct (known (n_repo nd) (b_id b)) eqn:Ek; [exact Hok|]. cbn [orb]. destruct (negb (known (n_repo nd) (b_parent b))); [exact Hok|]. unfold propose.
     pose proof (should_vote_keeps c (n_repo nd) (n_eng nd) (b_parent b)) as Hk. cbv zeta in Hk.
     assert (Hjc : e_jc (fst (should_vote c (n_repo nd) (n_eng nd) (b_parent b))) = e_jc (n_eng nd)).
     { unfold should_vote. destruct ((idnum (b_parent b) + 1) / L =? 0); [reflexivity|]. destruct (find_blk _ _); [|reflexivity].
@@ -157,6 +166,23 @@ Qed.
 
 Theorem run_nev_jc h : forall nd, node_jc nd -> node_jc (run_nev nd h).
 Proof. induction h as [|ev t IH]; intros nd H; [exact H|]. cbn [run_nev fold_left]. apply IH. apply nstep_jc. exact H. Qed.
+
+Definition nev_blocks (h : list nev) : list blk :=
+  flat_map (fun ev => match ev with NImport b => [b] | NPropose b => [b] | _ => [] end) h.
+
+(* the node invariants along such histories (blocks carry the number of their parent plus one) *)
+Theorem run_nev_inv (HL : 0 < c_L c) h : forall nd, inv c nd ->
+  (forall nd' b, inv c nd' -> In b (nev_blocks h) -> valid_child (n_repo nd') b) -> inv c (run_nev nd h).
+Proof.
+  induction h as [|ev t IH]; intros nd Hi Hv; [exact Hi|]. cbn [run_nev fold_left]. apply IH.
+  - destruct ev as [b|b| |]; cbn [nstep].
+    + apply import_inv; [exact HL | exact Hi | apply Hv; [exact Hi | cbn; left; reflexivity]].
+    + destruct (known (n_repo nd) (b_id b)) eqn:Ek; [exact Hi|]. cbn [orb]. destruct (known (n_repo nd) (b_parent b)) eqn:Ep; cbn [negb]; [|exact Hi].
+      apply propose_inv; [exact HL | exact Hi | apply Hv; [exact Hi | cbn; left; reflexivity] | exact Ek | exact Ep].
+    + apply restart_inv. exact Hi.
+    + apply inv_eng_irrelevant; [exact Hi | exact (justified_keeps_qs (n_repo nd) (n_eng nd) (best_blk nd))].
+  - intros nd' b Hi' Hb. apply Hv; [exact Hi'|]. destruct ev as [b0|b0| |]; cbn; try (right; exact Hb); exact Hb.
+Qed.
 
 (* after ANY history the answer of Justified() is the answer of a cold cache *)
 Theorem justified_history_independent_of_cache g master h :
@@ -298,4 +324,57 @@ Proof.
             forall b, In (Some b) h -> In (Some b) h').
   { intros h h' Hf b Hin. rewrite forallb_forall in Hf. exact (Hmem h' b (Hf (Some b) Hin)). }
   intros b. split; [apply (Hsub j_h1 j_h3) | apply (Hsub j_h3 j_h1)]; vm_compute; reflexivity.
+Qed.
+
+(* ---------------------------------------------------------------- the oracle's `run` (with observations) and `step_plain` *)
+(* `step` = the plain transition (`import` / `propose` / `restart`, the functions all theorems are about) followed by `observe`
+   on the node that moved; `observe` calls Justified() and ShouldVote(best), which may only fill the one-entry cache and
+   create the votes record: repository, best block, finalized, quality records and master are those of the plain step. *)
+Definition core (nd : node) : repo * N * N * list (N * N) * N :=
+  (n_repo nd, n_best nd, e_fin (n_eng nd), e_qs (n_eng nd), e_master (n_eng nd)).
+
+Lemma justified_keeps_core c r e best :
+  let e' := fst (justified c r e best) in e_qs e' = e_qs e /\ e_fin e' = e_fin e /\ e_master e' = e_master e /\ e_casts e' = e_casts e.
+Proof.
+  unfold justified, justified_gen. cbv zeta. destruct (b_num best <? c_L c - 1); [cbn; tauto|].
+  destruct (block_at r (b_id best) _) as [sb|]; [|cbn; tauto].
+  destruct (match e_jc e with Some (search, f, value) => _ | None => None end); [cbn; tauto|].
+  destruct (get_q (e_qs e) (b_id sb) =? 0); [cbn; tauto|]. destruct (find_cp c r (e_qs e) _ _ _); cbn; tauto.
+Qed.
+
+Lemma observe_core c nd code pre ob : core (fst (observe c nd code pre ob)) = core nd.
+Proof.
+  unfold observe, core. pose proof (justified_keeps_core c (n_repo nd) (n_eng nd) (best_blk nd)) as Hj. cbv zeta in Hj.
+  destruct (justified c (n_repo nd) (n_eng nd) (best_blk nd)) as [e1 j]. cbn [fst] in Hj.
+  pose proof (should_vote_keeps c (n_repo nd) e1 (n_best nd)) as Hs. cbv zeta in Hs.
+  destruct (should_vote c (n_repo nd) e1 (n_best nd)) as [e2 v]. cbn [fst n_repo n_best n_eng] in *.
+  destruct Hj as [A [B [C _]]]. destruct Hs as [D [E F]]. rewrite D, E, F, A, B, C. reflexivity.
+Qed.
+
+Lemma map_set_nth_core (w : list node) i x y : nth_error w i = Some y -> core x = core y -> map core (set_nth w i x) = map core w.
+Proof.
+  revert i. induction w as [|a w IH]; intros i Hn E; [destruct i; discriminate|]. destruct i; cbn in *.
+  - inversion Hn; subst. rewrite E. reflexivity.
+  - rewrite (IH i Hn E). reflexivity.
+Qed.
+
+Lemma set_nth_twice {A} (w : list A) i x y : set_nth (set_nth w i x) i y = set_nth w i y.
+Proof. revert i. induction w as [|a w IH]; intros [|i]; cbn; try reflexivity. rewrite IH. reflexivity. Qed.
+
+Lemma nth_set_nth_same {A} (w : list A) i x y : nth_error w i = Some y -> nth_error (set_nth w i x) i = Some x.
+Proof. revert i. induction w as [|a w IH]; intros [|i] H; cbn in *; try discriminate; [reflexivity | exact (IH i H)]. Qed.
+
+Theorem step_is_plain_step_then_observation guard c w ev :
+  map core (fst (Verif.Bft.Model.step guard c w ev)) = map core (step_plain guard c w ev).
+Proof.
+  destruct ev as [i b|i b|i]; cbn [Verif.Bft.Model.step step_plain]; destruct (nth_error w i) as [nd|] eqn:En; try reflexivity.
+  - destruct (import guard c nd b) as [nd1 code]. pose proof (observe_core c nd1 code (Ok false) (Some b)) as H.
+    destruct (observe c nd1 code (Ok false) (Some b)) as [nd2 o]. cbn [fst] in *.
+    rewrite <- (set_nth_twice w i nd1 nd2). apply map_set_nth_core with (y := nd1); [apply (nth_set_nth_same w i nd1 nd En) | exact H].
+  - destruct (propose guard c nd b) as [[nd1 code] v]. pose proof (observe_core c nd1 code v (Some b)) as H.
+    destruct (observe c nd1 code v (Some b)) as [nd2 o]. cbn [fst] in *.
+    rewrite <- (set_nth_twice w i nd1 nd2). apply map_set_nth_core with (y := nd1); [apply (nth_set_nth_same w i nd1 nd En) | exact H].
+  - pose proof (observe_core c (restart nd) 0 (Ok false) None) as H.
+    destruct (observe c (restart nd) 0 (Ok false) None) as [nd2 o]. cbn [fst] in *.
+    rewrite <- (set_nth_twice w i (restart nd) nd2). apply map_set_nth_core with (y := restart nd); [apply (nth_set_nth_same w i _ nd En) | exact H].
 Qed.
